@@ -120,6 +120,13 @@ Record down := mkDown {
   d_neg : bool                     (* negotiationNeeded > negotiationUnneeded *)
 }.
 
+Definition down_set_tracks (ts : list (nat * nat)) (limit : bool) (d : down) : down :=
+  mkDown (d_id d) (d_remote d) (d_req d) ts limit (d_havelocal d) (d_neg d).
+Definition down_set_sig (havelocal neg : bool) (d : down) : down :=
+  mkDown (d_id d) (d_remote d) (d_req d) (d_tracks d) (d_limit d) havelocal neg.
+Definition down_set_req (r : option (list rk)) (d : down) : down :=
+  mkDown (d_id d) (d_remote d) r (d_tracks d) (d_limit d) (d_havelocal d) (d_neg d).
+
 Inductive action :=
 | APush (g : nat) (id : nat) (up : option nat) (tracks : list kind) (replace : nat)
 | AReqConns (g : nat) (target : nat) (id : nat)
@@ -317,10 +324,8 @@ Definition replace_tracks (d : down) (remote : list (nat * nat)) (limit : bool) 
   let keep := filter (fun p => mem_pair p remote) (d_tracks d) in
   let del := filter (fun p => negb (mem_pair p remote)) (d_tracks d) in
   match add, del with
-  | [], [] => (false, mkDown (d_id d) (d_remote d) (d_req d) (d_tracks d) limit
-                             (d_havelocal d) (d_neg d))
-  | _, _ => (true, mkDown (d_id d) (d_remote d) (d_req d) (keep ++ add) limit
-                          (d_havelocal d) (d_neg d))
+  | [], [] => (false, down_set_tracks (d_tracks d) limit d)
+  | _, _ => (true, down_set_tracks (keep ++ add) limit d)
   end.
 
 Definition set_down_entry (m : nat) (d : down) (w : world) : world :=
@@ -329,11 +334,11 @@ Definition set_down_entry (m : nat) (d : down) (w : world) : world :=
 (* negotiate(c, down, restartIce, replace) *)
 Definition negotiate (m : nat) (d : down) (replace : nat) (w : world) : world :=
   if d_havelocal d then
-    set_down_entry m (mkDown (d_id d) (d_remote d) (d_req d) (d_tracks d) (d_limit d) true true) w
+    set_down_entry m (down_set_sig true true d) w
   else
     let r := w_up w (d_remote d) in
     send m (OOffer (d_id d) (uo_label r) replace (uo_owner r) (c_user (w_cl w (uo_owner r))))
-         (set_down_entry m (mkDown (d_id d) (d_remote d) (d_req d) (d_tracks d) (d_limit d) true false) w).
+         (set_down_entry m (down_set_sig true false d) w).
 
 (* pushDownConn(c, id, up, tracks, replace): (world, error) *)
 Definition push_down_conn (m id : nat) (up : option nat) (tracks : list kind)
@@ -426,32 +431,31 @@ Definition new_up_conn (c id label g : nat) (w : world) : world :=
     (upd_cl c (fun cl => set_ups (c_up cl ++ [(id, u)]) cl) w0).
 
 (* gotOffer + the error handling of the `offer` case *)
+(* the rest of gotOffer once the connection u is there: the `replace`
+   handling, then SetRemoteDescription .. SetLocalDescription, which fail on a
+   closed connection (replace = id) and on a description that is not an
+   acceptable offer *)
+Definition offer_tail (c id replace u : nat) (s : sdp) (w1 : world) : world :=
+  let w2 :=
+    if Nat.eqb replace 0 then w1
+    else del_up_conn' c replace false (upd_up u (up_set_replace replace) w1) in
+  match s with
+  | SGood => if uo_closed (w_up w2 u) then fail_up c id w2 else send c (OAnswer id) w2
+  | _ => fail_up c id w2
+  end.
+
 Definition got_offer (c id label replace : nat) (s : sdp) (w : world) : world :=
   let cl := w_cl w c in
   match get_down id (c_down cl) with
   | Some _ => fail_up c id w                    (* addUpConn: duplicate connection *)
   | None =>
-      let existing := lookup id (c_up cl) in
-      match existing, s, c_group cl with
-      | None, SBad, _ => fail_up c id w         (* newUpConn: the offer does not parse *)
-      | None, _, None => fail_up c id w         (* not reachable: present implies a group *)
-      | _, _, _ =>
-          let '(u, w1) :=
-            match existing, c_group cl with
-            | Some u, _ => (u, w)
-            | None, Some g => (w_nup w, new_up_conn c id label g w)
-            | None, None => (0, w)
-            end in
-          let w2 :=
-            if Nat.eqb replace 0 then w1
-            else del_up_conn' c replace false
-                   (upd_up u (up_set_replace replace) w1) in
-          (* SetRemoteDescription .. SetLocalDescription: fail on a closed
-             connection (replace = id) and on a description that is not an
-             acceptable offer *)
-          match s with
-          | SGood => if uo_closed (w_up w2 u) then fail_up c id w2 else send c (OAnswer id) w2
-          | _ => fail_up c id w2
+      match lookup id (c_up cl) with
+      | Some u => offer_tail c id replace u s w (* the existing connection *)
+      | None =>
+          match s, c_group cl with
+          | SBad, _ => fail_up c id w           (* newUpConn: the offer does not parse *)
+          | _, None => fail_up c id w           (* not reachable: present implies a group *)
+          | _, Some g => offer_tail c id replace (w_nup w) s (new_up_conn c id label g w)
           end
       end
   end.
@@ -545,8 +549,7 @@ Definition handle_msg (c : nat) (m : msg) (w : world) : world * bool :=
       | None, _ => (w, true)                        (* ErrUnknownId *)
       | Some d, None => (w, true)                   (* not reachable *)
       | Some d, Some g =>
-          let w1 := set_down_entry c (mkDown (d_id d) (d_remote d) req (d_tracks d)
-                                             (d_limit d) (d_havelocal d) (d_neg d)) w in
+          let w1 := set_down_entry c (down_set_req req d) w in
           (enq (uo_owner (w_up w (d_remote d)))
                (AReqConns g c (uo_id (w_up w (d_remote d)))) w1, false)
       end
@@ -566,7 +569,7 @@ Definition handle_msg (c : nat) (m : msg) (w : world) : world * bool :=
            | None => (close_down_conn c id false w, false)
            | Some d =>
                if ok && d_havelocal d then
-                 let d1 := mkDown (d_id d) (d_remote d) (d_req d) (d_tracks d) (d_limit d) false (d_neg d) in
+                 let d1 := down_set_sig false (d_neg d) d in
                  let w1 := set_down_entry c d1 w in
                  if d_neg d then (negotiate c d1 0 w1, false) else (w1, false)
                else (close_down_conn c id true w, false)
